@@ -565,6 +565,6 @@ func replay(w json.RawMessage) (*fw.Violation, error) {
 func init() {
 	fw.Register(&fw.Check{ID: "C02", Level: "model_checking",
 		Rule: "states = every tree of depth<=2 over names {a,b} and the content pool, materialised in a scratch directory (disk) and built through MkdirAll/WriteFile (memory); from every state every op of the alphabet (16 methods x path spellings x contents/chunkings/buffers x root and child views) is applied to BOTH real backends; where the stated preconditions hold results and trees must be equal to each other and to the tree model, otherwise each backend must fail cleanly (no panic, failed op leaves the tree unchanged, nothing outside the addressed paths or outside the host root changes); plus every history of 3 operations from a 28-entry alphabet (writes, writers, mkdirs, removes, copies through the root and through a child view) executed on the SAME disk and memory filespace objects (root and child view obtained once), judged step by step; distinct = (state, op) transitions and live histories",
-		Run: run, Replay: replay,
+		Run:  run, Replay: replay,
 		Assumptions: []string{"single-operation transitions start from directly materialised disk states; state kept inside filespace objects is exercised by the live histories (depth 3)", "no symlinks/permissions; RemoveAll/Remove of the real root excluded", "a Writer below a missing parent is outside the stated preconditions (error or parents created)"}})
 }
